@@ -4,7 +4,7 @@
 # demo passes on the clean tree, fails with the change, and the existing tests of the
 # given packages pass with the change. Leaves the worktree clean.
 pid=$1; m=$2; pkg=$3; shift 3
-wt=/tmp/mut/$pid/wt; out=/tmp/mut/$pid/out
+wt=/tmp/mut/$pid/wt; out=/tmp/mut/$pid/${OUT:-out}
 export GOFLAGS=-mod=mod GOPROXY=off GOSUMDB=off
 cd $wt || exit 2
 git checkout -q -- . && git clean -fdq
